@@ -644,6 +644,9 @@ func (v *Verifier) needsFrame(c *Contract) bool {
 	if c.Inline {
 		return false
 	}
+	if c.ModAny {
+		return false // nothing is promised to callers, so there is nothing to check
+	}
 	if c.AssumedFrame {
 		v.assumedAt[c.Func+": frame (modifies clauses) assumed, not checked against the body"] = true
 		return false
